@@ -37,7 +37,7 @@ def budget(tier):
 # ---------------------------------------------------------------------- programs
 
 BOUNDS = {}   # argument name -> exclusive upper bound for integer arguments that index or count
-QFAMS = ['Q1', 'Q2', 'Q3', 'Q4', 'Q5', 'Q6', 'Q7', 'Q8', 'Q8', 'Q9', 'Q10', 'Q11']
+QFAMS = ['Q1', 'Q2', 'Q3', 'Q4', 'Q5', 'Q6', 'Q7', 'Q8', 'Q8', 'Q9', 'Q10', 'Q11', 'Q12']
 
 
 def build_q(prog):
@@ -106,6 +106,15 @@ def build_q(prog):
         AA = ev.Sin(A) * A      # computed, argument free, not folded by the simplifier
         vv = ev.Cos(v) + v
         return (ev.InsertAxis(vv, cnt), ev.get(AA, 0, idx), ev.InsertAxis(ev.Sum(vv), cnt), ev.Sum(AA) + ev.astype(cnt, float), AA), args
+    if fam == 'Q12':  # arrays GENERATED per call with an argument dependent size (index ranges, zeros, repeats) handed out directly and through views
+        cnt = ev.InRange(ev.Argument('cnt', (), int), c(6))
+        args['cnt'] = numpy.array(rng.choice([1, 2, 3, 4, 5]))
+        BOUNDS.update(cnt=6)
+        X = arg('x', (m,))
+        v = const((6,))
+        R = ev.Range(cnt)
+        return (R, ev.InsertAxis(R, c(2)), ev.Transpose(ev.InsertAxis(R, c(2)), (1, 0)), ev.zeros((cnt, c(m))), ev.Take(v, R), ev.astype(R, float) * 2.,
+                ev.InsertAxis(X, cnt), ev._inflate(ev.Take(v, R), R, c(6), 0), R + cnt), args
     if fam == 'Q11':  # an update map u -> F(u) whose result has the shape of its argument and is a VIEW OF A VIEW of an internal accumulator (fixed-point iteration feeds it back)
         k = 2
         U = arg('u', (k * k, m))
